@@ -1933,8 +1933,12 @@ streamSets:
 	yamlModes := []fmode{{[]string{"--yaml-input", "-c"}, `.`}, {[]string{"--yaml-input", "-n", "-c"}, `[inputs]`}, {[]string{"-s", "--yaml-input"}, `.`},
 		{[]string{"-n", "--yaml-input"}, tryInput5}}
 	complete = true
+	before = rec.Violations()
 	runFixed := func(sets [][]fileSpec, modes []fmode) {
 		for _, set := range sets {
+			if rec.Violations() > before+6 {
+				return
+			}
 			for _, m := range modes {
 				idx++
 				if !rec.Mine(idx) {
@@ -1974,6 +1978,8 @@ streamSets:
 		{[]string{"-nR", "-c"}, `[inputs]`, false}, {[]string{"-n", "-R", "-r"}, `inputs`, false}, {[]string{"-R", "-c"}, `[., length]`, true},
 		{[]string{"-R", "-s", "-c"}, `.`, false}, {[]string{"-cR"}, `., input`, false}, {[]string{"-rR", "-s"}, `.`, true}}
 	complete = true
+	before = rec.Violations()
+rawSets:
 	for li, n := range rawLens {
 		for si, st := range rawStyles {
 			for mi, m := range rawModes {
@@ -1994,6 +2000,9 @@ streamSets:
 				if msg := do("raw-fixed", c); msg != "" {
 					rec.Direct("raw-fixed", c, "%s", msg)
 					complete = false
+					if rec.Violations() > before+6 {
+						break rawSets
+					}
 				}
 			}
 		}
